@@ -40,7 +40,7 @@ type Cells struct {
 type Hist struct {
 	K    string `json:"k"`
 	ID   int64  `json:"id"`
-	Fail bool   `json:"fail"`
+	Fail string `json:"fail"` // "no", "other", "notfound"
 	Vs   []El   `json:"vs"`
 }
 
@@ -152,34 +152,59 @@ func amark(c osm.ChangesetID) int64 {
 	return -1
 }
 
-var errDatasource = errors.New("c13 harness: datasource failure")
+// errors of the fault-injecting datasource
+var (
+	errDatasource  = errors.New("c13 harness: datasource failure (i/o error, timeout, ...)") // NotFound(err) == false
+	errOwnNotFound = errors.New("c13 harness: no such element")                               // NotFound(err) == true
+)
 
-// failingDS is an osm.HistoryDatasource whose lookups fail (with an error that is not NotFound)
-// for the histories marked fail in the case.
-type failingDS struct {
-	*osm.HistoryDatasource
-	fail map[osm.FeatureID]bool
+type faultKey struct {
+	kind string
+	id   int64
 }
 
-func (d *failingDS) NodeHistory(ctx context.Context, id osm.NodeID) (osm.Nodes, error) {
-	if d.fail[id.FeatureID()] {
-		return nil, errDatasource
+// faultyDS is a fault-injecting osm.HistoryDatasourcer around the library's in-memory datasource: for the
+// (kind, id) the case marks, the lookup fails with errDatasource (fault "other": not classified as not-found)
+// or with errOwnNotFound (fault "notfound": an error of its own that its NotFound method classifies as
+// not-found).  Everything else is answered by the wrapped osm.HistoryDatasource.
+type faultyDS struct {
+	*osm.HistoryDatasource
+	fault map[faultKey]string
+}
+
+func (d *faultyDS) inject(kind string, id int64) error {
+	switch d.fault[faultKey{kind, id}] {
+	case "other":
+		return errDatasource
+	case "notfound":
+		return errOwnNotFound
+	}
+	return nil
+}
+
+func (d *faultyDS) NodeHistory(ctx context.Context, id osm.NodeID) (osm.Nodes, error) {
+	if err := d.inject("node", int64(id)); err != nil {
+		return nil, err
 	}
 	return d.HistoryDatasource.NodeHistory(ctx, id)
 }
 
-func (d *failingDS) WayHistory(ctx context.Context, id osm.WayID) (osm.Ways, error) {
-	if d.fail[id.FeatureID()] {
-		return nil, errDatasource
+func (d *faultyDS) WayHistory(ctx context.Context, id osm.WayID) (osm.Ways, error) {
+	if err := d.inject("way", int64(id)); err != nil {
+		return nil, err
 	}
 	return d.HistoryDatasource.WayHistory(ctx, id)
 }
 
-func (d *failingDS) RelationHistory(ctx context.Context, id osm.RelationID) (osm.Relations, error) {
-	if d.fail[id.FeatureID()] {
-		return nil, errDatasource
+func (d *faultyDS) RelationHistory(ctx context.Context, id osm.RelationID) (osm.Relations, error) {
+	if err := d.inject("relation", int64(id)); err != nil {
+		return nil, err
 	}
 	return d.HistoryDatasource.RelationHistory(ctx, id)
+}
+
+func (d *faultyDS) NotFound(err error) bool {
+	return err == errOwnNotFound || d.HistoryDatasource.NotFound(err)
 }
 
 func renderOSM(m idmap, c Cells, nile bool) *osm.OSM {
@@ -201,13 +226,15 @@ func renderOSM(m idmap, c Cells, nile bool) *osm.OSM {
 
 func renderDS(m idmap, hs []Hist) osm.HistoryDatasourcer {
 	ds := &osm.HistoryDatasource{}
-	fail := map[osm.FeatureID]bool{}
+	fault := map[faultKey]string{}
 	for _, h := range hs {
 		switch h.K {
 		case "node":
 			id := osm.NodeID(m.cid(h.ID))
-			if h.Fail {
-				fail[id.FeatureID()] = true
+			if h.Fail != "no" {
+				fault[faultKey{h.K, int64(id)}] = h.Fail
+			}
+			if h.Fail == "notfound" {
 				continue
 			}
 			if ds.Nodes == nil {
@@ -220,8 +247,10 @@ func renderDS(m idmap, hs []Hist) osm.HistoryDatasourcer {
 			ds.Nodes[id] = l
 		case "way":
 			id := osm.WayID(m.cid(h.ID))
-			if h.Fail {
-				fail[id.FeatureID()] = true
+			if h.Fail != "no" {
+				fault[faultKey{h.K, int64(id)}] = h.Fail
+			}
+			if h.Fail == "notfound" {
 				continue
 			}
 			if ds.Ways == nil {
@@ -234,8 +263,10 @@ func renderDS(m idmap, hs []Hist) osm.HistoryDatasourcer {
 			ds.Ways[id] = l
 		case "relation":
 			id := osm.RelationID(m.cid(h.ID))
-			if h.Fail {
-				fail[id.FeatureID()] = true
+			if h.Fail != "no" {
+				fault[faultKey{h.K, int64(id)}] = h.Fail
+			}
+			if h.Fail == "notfound" {
 				continue
 			}
 			if ds.Relations == nil {
@@ -250,10 +281,10 @@ func renderDS(m idmap, hs []Hist) osm.HistoryDatasourcer {
 			vio.Must(fmt.Errorf("unknown kind %q", h.K), "case")
 		}
 	}
-	if len(fail) == 0 {
+	if len(fault) == 0 {
 		return ds // the plain in-memory datasource of the library
 	}
-	return &failingDS{HistoryDatasource: ds, fail: fail}
+	return &faultyDS{HistoryDatasource: ds, fault: fault}
 }
 
 // recordOSM lists the elements of one part of an action: nodes, ways, relations in that order.
